@@ -55,9 +55,18 @@ func (s *vCStream) ReassemblyComplete(msgs []*auparse.AuditMessage) {
 }
 
 func (s *vCStream) EventsLost(n int) {
+	vYield()
 	s.mu.Lock()
 	s.lostCalls++
+	re := s.reenter
 	s.mu.Unlock()
+	// the loss callback may re-enter the Reassembler as well
+	switch re {
+	case 1:
+		s.r.Maintain()
+	case 2:
+		s.r.Close()
+	}
 }
 
 func (s *vCStream) now() int {
@@ -101,7 +110,7 @@ func VH_Concurrent() {
 		var msgs []*auparse.AuditMessage
 		for i := 0; i < len(ops); i++ {
 			if ops[i] == 'p' {
-				seq := uint32(5 + vChoose("seq", 2))
+				seq := uint32(5 + []int{0, 1, 3}[vChoose("seq", vParam("nseq", 2))]) // nseq=3: a gap is possible (EventsLost fires)
 				typ := []uint16{1300, 1327, 1320}[vChoose("typ", vParam("types", 2))]
 				msgs = append(msgs, &auparse.AuditMessage{RecordType: auparse.AuditMessageType(typ), Sequence: seq})
 			}
